@@ -150,6 +150,23 @@ func runWireTaint(c *core.Ctx) []core.Obligation {
 					}
 				}
 				if !direct {
+					// a bound computed from the wire length through something else than P + int(l)
+					indirect := false
+					for t := range hi.terms {
+						if _, isPhi := t.(*ssa.Phi); isPhi {
+							continue // the cursor
+						}
+						if ex, ok := t.(*ssa.Extract); ok && ex.Index >= 1 {
+							continue
+						}
+						if taintedBy(t, w) {
+							indirect = true
+						}
+					}
+					if indirect {
+						b.addP(props, core.Violation, nk("window"), c.InstrPos(sl), fmt.Sprintf("%s cuts a window of the input whose end (%s) is derived from the wire length but is not P + int(l) for the l and P that the bounds check used: a non-minimal length prefix makes the window and the consumed prefix disagree", name, hi))
+						continue
+					}
 					// fixed-size window b[P : P+K]: needs (P+K) <= len(b)
 					if hi.k > 0 && len(hi.terms) > 0 {
 						n++
@@ -173,14 +190,8 @@ func runWireTaint(c *core.Ctx) []core.Obligation {
 								guarded = true
 							}
 						}
-						// b[P : P+n] with n the byte count just returned by a decode of b[P:]
-						for t := range hi.terms {
-							if ex, ok := t.(*ssa.Extract); ok && ex.Index >= 1 {
-								guarded = true
-							}
-						}
 						if guarded {
-							b.addP(props, core.Discharged, key, c.InstrPos(sl), "fixed-size window dominated by (P+K) <= len(b), or bounded by a decoder's own byte count")
+							b.addP(props, core.Discharged, key, c.InstrPos(sl), "fixed-size window dominated by (P+K) <= len(b)")
 						} else {
 							b.addP(props, core.Violation, key, c.InstrPos(sl), fmt.Sprintf("%s cuts the fixed-size window b[P:P+%d] with no dominating test (P+%d) <= len(b): truncated input panics instead of returning an error", name, hi.k, hi.k))
 						}
